@@ -348,6 +348,9 @@ impl LiftExpr {
                 .to_doc(liftenv)
                 .append(RcDoc::text("."))
                 .append(RcDoc::text(index.to_string())),
+            LiftExpr::EClosureFn { closure, ty: _ } => RcDoc::text("as_fn(")
+                .append(closure.to_doc(liftenv))
+                .append(RcDoc::text(")")),
             LiftExpr::EConstrGet {
                 expr,
                 constructor,
